@@ -15,7 +15,9 @@
                                                "ASN1Writer as a value tree": write_x appends the model's leaf (a_int, a_oid,
                                                a_octets, a_utf8, a_gentime, Raw), `with p.push_sequence(tag) as w` gives a fresh
                                                writer carrying the tag and, when the block is left, appends Cons tag children to
-                                               p (ASN1Writer.__exit__), get_data() is encode_list of the children.  The model does
+                                               p (ASN1Writer.__exit__), get_data() on a root writer is encode_list of the
+                                               children (Proofs/Flow_cms_writer_bridge.v relates this writer to the octet
+                                               writer of Flow/World_asn1.v the C07 ties are about).  The model does
                                                NOT keep accumulated octets (Python packs each TLV when it is written): the two
                                                differ only in WHEN a pack_tlv error of an inner node would surface;
    * dataclass instances                    := the model records (OAlg, OOka, OKekId, OKri, OEci, OEd, OCi, OBlob, OKid);
@@ -176,8 +178,8 @@ Definition writer_meth (m : string) (t : option tag) (ws : list asn1) (args : li
     match args with [VS s] => Some (wr t ws (a_gentime s)) | _ => None end
   else if String.eqb m "write_utf8_string" then
     match args with [VS s] => Some (wr t ws (a_utf8 s)) | _ => None end
-  else if String.eqb m "get_data" then
-    match args with [] => Some (let* b := encode_list ws in Ok (VB b, self)) | _ => None end
+  else if String.eqb m "get_data" then                  (* only on a root writer; on a pushed child: no meaning (TypeError) *)
+    match t, args with None, [] => Some (let* b := encode_list ws in Ok (VB b, self)) | _, _ => None end
   else None.
 
 Definition cms_glob (x : string) : option (res V) :=
@@ -399,7 +401,11 @@ Definition cms_ext : ext obj :=
      x_setattr := fun _ _ _ => None;
      x_call := cms_call;
      x_meth := cms_meth;
-     x_truthy := fun o => match o with OReader view => Ok (reader_bool view) | _ => Ok true end;
+     x_truthy := fun o => match o with
+                          | OReader view => Ok (reader_bool view)
+                          | OOid [] => Ok false                 (* the empty str *)
+                          | _ => Ok true
+                          end;
      x_eqb := fun a b => match a, b with OOid x, OOid y => Some (oid_eqb x y) | _, _ => None end;
      x_iter := fun _ => Raise TypeError;
      x_enter := fun v => Ok v;                                (* ASN1Writer.__enter__ returns self *)
